@@ -44,6 +44,17 @@ SEEDS = {
  "seed2-C18": dict(property="C18", also=[], needs="update(..., overwrite=False) where the existing value is falsy (0, '', False, [], None): membership test replaced by truthiness"),
  "seed2-C19": dict(property="C19", also=["C07"], needs="LABEL REPEATDISTANCE: draft-04 exclusive minimum 0 made effective while the declared default stays 0; create('label', v >= 6.2) no longer validates"),
  "seed2-C20": dict(property="C20", also=["C13"], needs="open(path) with exactly one of include_comments / include_position: open delegates to load positionally and the two signatures order the flags differently; also `mappyfile format` without --comments writes comments"),
+ # ---- round 3 (ten properties whose earlier seeds had been missed at a first trial; told both earlier mechanisms) ----
+ "seed3-C01": dict(property="C01", also=["C03"], needs="the same keyword used in two object kinds with different schemas in one document, the 'wrong' kind printed first (LAYER GROUP then CLUSTER GROUP (expr); LEGEND POSITION then LABEL POSITION [binding]): get_attribute_properties memoised per keyword name (the same patch as seed3-C03, found independently by a second agent)"),
+ "seed3-C03": dict(property="C03", also=["C01", "C12"], needs="one dumps call printing two object types that share a keyword with different schemas (STYLE SIZE 8 then LABEL SIZE small; LAYER GROUP then CLUSTER GROUP (expr)): get_attribute_properties memoised per keyword name only"),
+ "seed3-C05": dict(property="C05", also=["C02"], needs="a SINGLE-quoted 8-digit hex colour with an upper-case letter in its alpha digits ('#FF00FFCC'): the single-quoted HEXCOLOR terminal's alpha group lost A-F, so the value is not lower-cased (or COLORRANGE fails to parse)"),
+ "seed3-C07": dict(property="C07", also=["C12"], needs="validate([layer, class]) - a list of roots of DIFFERENT types: the Draft4Validator is cached on the Validator per version only, every later root is judged by the first root's schema"),
+ "seed3-C08": dict(property="C08", also=[], needs="a constraint failure on ONE ITEM of a list-valued keyword whose schema is a plain array (LEGEND KEYSIZE 20 500, SCALEBAR SIZE, REFERENCE SIZE): create_message reports the position of the value token instead of the keyword"),
+ "seed3-C12": dict(property="C12", also=["C09"], needs="two or more threads calling validate(d, version=V) on a cold cache: the schema caches became class attributes shared by all Validators, and get_versioned_schema trims the cached object in place"),
+ "seed3-C13": dict(property="C13", also=["C01"], needs="a nested METADATA / VALIDATION / CONNECTIONOPTIONS / VALUES block with no pairs, loaded with include_position or include_comments: the printer skips 'empty' key-value blocks but counts the hidden bookkeeping keys as content"),
+ "seed3-C14": dict(property="C14", also=[], needs="a /* */ comment spanning several lines above a block opener or after a keyword: format_comment prefixes '# ' to anything its regex (no DOTALL) does not recognise as a complete comment"),
+ "seed3-C15": dict(property="C15", also=[], needs="an included file containing a quoted string that spans lines, pulled in by an indented INCLUDE line: the expanded text is re-indented with textwrap.indent before the splice"),
+ "seed3-C16": dict(property="C16", also=[], needs="a FEATURE with two or more POINTS blocks and indent > 0: format_repeated_pair_list recurses with level + 1, every repeated block is printed one level too deep"),
 }
 
 def main():
@@ -55,7 +66,7 @@ def main():
             continue
         conf = open(os.path.join(d, "confirmation.txt")).read().strip() if os.path.exists(os.path.join(d, "confirmation.txt")) else ""
         meta = dict(id=sid, breaks_property=m["property"], related_properties=m["also"], needs_to_manifest=m["needs"],
-                    origin="written by an independent sub-agent that saw only the property text and a scratch worktree of /repo" + (" (round 2: also told which function the round-1 change had touched, to pick a different mechanism)" if sid.startswith("seed2") else ""),
+                    origin="written by an independent sub-agent that saw only the property text and a scratch worktree of /repo" + (" (round 2: also told which function the round-1 change had touched, to pick a different mechanism)" if sid.startswith("seed2") else " (round 3: told both earlier mechanisms)" if sid.startswith("seed3") else ""),
                     confirmed=conf,
                     what_was_run=["tools/confirm_seed.sh: scratch copy of /repo; demo.py exit 0 without the patch, exit 1 with it; full test-suite with the patch",
                                   "tools/try_seed.sh patch.diff <properties>: the registered quick checks with VERIF_REPO pointing at a scratch copy with the patch applied"],
